@@ -275,9 +275,11 @@ def tagged_to_file(path, tag, dst, limit=None, every=1, offset=0):
 
 def load_known():
     p = os.path.join(VERIF, "known_findings.json")
-    if not os.path.exists(p):
-        return []
-    return json.load(open(p))["findings"]
+    out = json.load(open(p))["findings"] if os.path.exists(p) else []
+    # rehearsals / proposals: additional files with the same layout, VERIF_EXTRA_KNOWN=path[:path...]
+    for extra in filter(None, os.environ.get("VERIF_EXTRA_KNOWN", "").split(":")):
+        out += json.load(open(extra))["findings"]
+    return out
 
 
 def finish(ctx, level, coverage, assumptions):
